@@ -9,7 +9,7 @@ TRUSTED_BASE = [
 ]
 ASSUMPTIONS = ['edge lists are acyclic and non-empty; owl:Thing is not an input term',
                'for the two-index predicates the index whose row is read must raise ValueError; the other index must never yield True (reading fixed in DESIGN §4 C14)']
-THEOREM = 'C14_unknown_node / C14_bad_argument / C14_idx_out_of_range / C14_pred_idx_out_of_range'
+THEOREM = 'C14_unknown_node / C14_bad_argument / C14_index_out_of_range / C14_index_predicates'
 FACTORIES = ['idx', 'inc', 'bld']
 
 BAD_STR = ['nocurie', '', 'HP', 'HP 1', '0000001']
